@@ -108,11 +108,35 @@ func (w *World) execCopyTo(op *Op) bool {
 			}
 			return 0
 		}
+		// The final root record ends the file; decode it first.  Every item CopyTo
+		// wrote is live in it, so a write that merely looks like a root record but
+		// lies inside one of its item records is a *value* (a copy of a root record
+		// of the source file can even be self-consistent at its place in this other
+		// file) and is not a root record of the destination.
+		if o, _, err := rootAt(img, int64(len(img))); err != nil || o < 0 {
+			w.failf("copyto-no-final-root", "the CopyTo destination does not end in a root record (flushEvery=%d, %d items): %v", flushEvery, n, err)
+		}
+		final, err := DecodeAt(img, int64(len(img)), cmpFor)
+		if err != nil {
+			w.failf("copyto-layout", "CopyTo destination, final root record: %v", err)
+		}
+		insideItem := func(off, end int64) bool {
+			for _, e := range final.Extents {
+				if e.Kind == 'i' && off >= e.Off && end <= e.Off+e.Len {
+					return true
+				}
+			}
+			return false
+		}
 		var ends []int64
 		for _, r := range dst.Log {
 			// root records are the writes that start with the begin magic
 			if r.Kind == IOWrite && !r.Failed && r.Len >= decRootFixed && r.Off+int64(r.Len) <= int64(len(img)) &&
 				string(img[r.Off:r.Off+6]) == decMagicBeg && string(img[r.Off+int64(r.Len)-6:r.Off+int64(r.Len)]) == decMagicEnd {
+				if insideItem(r.Off, r.Off+int64(r.Len)) {
+					w.ev["copyto_value_looks_like_root"]++
+					continue
+				}
 				if o, _, err := rootAt(img, r.Off+int64(r.Len)); err == nil && o == r.Off {
 					ends = append(ends, r.Off+int64(r.Len))
 				}
